@@ -8,7 +8,7 @@
 From Coq Require Import ZArith NArith String List Bool.
 From Sidetree Require Import Base.Sha2 Json.Json Json.Jcs Sidetree.Protocol Sidetree.Hashing Sidetree.Parser Sidetree.Applier
      Json.JcsProps Json.JcsRoundTrip Sidetree.JequivDecode Sidetree.ClientCreate
-     Sidetree.Rules Sidetree.Validator Sidetree.ClientUpdate Sidetree.ClientDeactivateRecover.
+     Sidetree.Rules Sidetree.Validator Sidetree.ClientUpdate Sidetree.ClientDeactivateRecover Sidetree.Resolve Sidetree.Composer Sidetree.ClientApply.
 Import ListNotations.
 Open Scope string_scope.
 
@@ -34,6 +34,28 @@ Theorem C08_create_built_accepted : forall cfg u n o t i bytes sd d a rest,
     (exists sd', p_suffix_data p = Some sd' /\ sd_recovery_c sd' = ci_recovery_c i /\ jequiv (ci_origin i) (sd_origin sd')).
 Proof. exact create_built_accepted. Qed.
 Print Assumptions C08_create_built_accepted.
+
+(* ... and applying it to the empty state yields what the caller asked for: commitments, anchor
+   origin, and the document the composer makes of the requested patches *)
+Theorem C08_create_built_applies : forall cfg u n o i bytes sd d a rest t num ver canon equiv pub unpub,
+  build_create i = Some (bytes, sd, d) ->
+  algs cfg = a :: rest -> (a = 18%N \/ a = 19%N) -> In (ci_code i) (algs cfg) ->
+  (Z.of_nat (String.length bytes) <= P_MaxOperationSize cfg)%Z ->
+  (Z.of_nat (String.length (ci_recovery_c i)) <= P_MaxOperationHashLength cfg)%Z ->
+  (Z.of_nat (String.length (ci_update_c i)) <= P_MaxOperationHashLength cfg)%Z ->
+  (Z.of_nat (String.length (sd_delta_hash sd)) <= P_MaxOperationHashLength cfg)%Z ->
+  (forall c, jcs (img_delta d) = Some c -> (Z.of_nat (String.length c) <= P_MaxDeltaSize cfg)%Z) ->
+  Forall is_obj (ci_patches i) -> Forall wfnum (ci_patches i) -> wfnum (ci_origin i) ->
+  (forall o', jequiv (ci_origin i) o' -> o o' = true) ->
+  (forall p p', In p (ci_patches i) -> jequiv p p' -> patch_enabled cfg p' = true /\ validate_patch u n p' = true) ->
+  exists rm ps',
+    apply_bytes cfg u n TCreate bytes true t num ver canon equiv (empty_rm pub unpub) = Some rm /\
+    Forall2 jequiv (ci_patches i) ps' /\
+    rm_recovery_c rm = ci_recovery_c i /\ rm_update_c rm = ci_update_c i /\ jequiv (ci_origin i) (rm_origin rm) /\
+    rm_deactivated rm = false /\ rm_created rm = t /\
+    rm_doc rm = Some (match apply_patches [] ps' with Some doc => doc | None => [] end).
+Proof. exact create_built_applies. Qed.
+Print Assumptions C08_create_built_applies.
 
 Theorem C08_update_built_accepted : forall cfg u n o t i bytes d dh,
   build_update i = Some (bytes, d, dh) ->
